@@ -266,3 +266,23 @@ pub fn c12_max_data_too_big() {
     kani::cover!(true, "end");
     std::mem::forget(fw);
 }
+
+/// bytes currently in the write buffer (not yet handed to the transport)
+pub(crate) fn buffered<T, B>(fw: &FramedWrite<T, B>) -> &[u8] {
+    let pos = fw.encoder.buf.position() as usize;
+    &fw.encoder.buf.get_ref()[pos..]
+}
+pub(crate) fn shrink<T, B>(fw: &mut FramedWrite<T, B>) {
+    fw.encoder.buf = Cursor::new(BytesMut::with_capacity(64));
+    fw.encoder.chain_threshold = 4;
+    fw.encoder.min_buffer_capacity = 4 + 9;
+}
+/// make the encoder report "no capacity" (a frame is still being written)
+pub(crate) fn set_blocked<T, B>(fw: &mut FramedWrite<T, B>, blocked: bool) {
+    fw.encoder.min_buffer_capacity = if blocked { usize::MAX / 2 } else { 4 + 9 };
+}
+impl AsyncRead for Mock {
+    fn poll_read(self: Pin<&mut Self>, _cx: &mut Context<'_>, _buf: &mut ReadBuf<'_>) -> Poll<io::Result<()>> {
+        Poll::Pending
+    }
+}
